@@ -133,13 +133,18 @@ pub fn on_sink<J: Job>(kind: &str, cap: usize, job: &J) -> String {
             with_oracle(show(ok, &written, pos), v)
         }
         "io_trickle" => {
-            // an io::Write that accepts one byte per write() call: write_all has to loop
-            struct Trickle(Vec<u8>);
+            // an io::Write that accepts one byte per write() call and answers every third call with ErrorKind::Interrupted
+            // (EINTR on a pipe or socket): write_all has to loop and to retry
+            struct Trickle(Vec<u8>, usize);
             impl std::io::Write for Trickle {
-                fn write(&mut self, b: &[u8]) -> std::io::Result<usize> { if b.is_empty() { Ok(0) } else { self.0.push(b[0]); Ok(1) } }
+                fn write(&mut self, b: &[u8]) -> std::io::Result<usize> {
+                    self.1 += 1;
+                    if self.1 % 3 == 2 { return Err(std::io::ErrorKind::Interrupted.into()) }
+                    if b.is_empty() { Ok(0) } else { self.0.push(b[0]); Ok(1) }
+                }
                 fn flush(&mut self) -> std::io::Result<()> { Ok(()) }
             }
-            let mut w = Writer::new(Trickle(Vec::new()));
+            let mut w = Writer::new(Trickle(Vec::new(), 0));
             let ok = job.run(&mut w);
             let v = w.into_inner().0;
             let n = v.len();
